@@ -171,6 +171,13 @@ pub fn run(classes_path: &str, seed: u64, per_class: usize, uniform: usize, muta
             }
             pre.pre.regs[2] = g.rng.gen_range(0..70);
         }
+        else if g.rng.gen_bool(0.5) {
+            // tiny and huge register values: indirect branch targets / addresses next to 0 and next to 2^64
+            let c = [0u64, 1, 2, 3, 4, 7, 8, 15, 16, u64::MAX, u64::MAX - 1, u64::MAX - 7, u64::MAX - 15];
+            for r in pre.pre.regs.iter_mut() {
+                *r = c[g.rng.gen_range(0..c.len())];
+            }
+        }
         if g.rng.gen_bool(0.2) {
             pre.pre.regs[6] = u64::MAX - g.rng.gen_range(0..16); // RSP at the very top of the address space
         }
